@@ -4,6 +4,7 @@
 package dbcheck
 
 import (
+	"bytes"
 	"context"
 	"fmt"
 	"sort"
@@ -128,6 +129,18 @@ func ReadDay(ifacePath string, day int64, dirName string, mode, order int) (dc *
 			idx[i] = i
 		}
 	}
+	if order == 2 && n > 0 {
+		// zigzag: start in the middle, continue sequentially, jump back to the first block, read
+		// it twice, then sequentially again (seek / no-seek transitions of the reader in every order)
+		idx = idx[:0]
+		for i := n / 2; i < n; i++ {
+			idx = append(idx, i)
+		}
+		idx = append(idx, 0, 0)
+		for i := 1; i < n; i++ {
+			idx = append(idx, i)
+		}
+	}
 	for _, i := range idx {
 		bc := &dc.Blocks[i]
 		bc.TS = d.BlockMetadata[0].BlockList[i].Timestamp
@@ -140,7 +153,10 @@ func ReadDay(ifacePath string, day int64, dirName string, mode, order int) (dc *
 			if rerr != nil {
 				return nil, fmt.Errorf("read block %d (ts %d) column %s: %w", i, bc.TS, types.ColumnFileNames[c], rerr)
 			}
-			bc.Cols[c] = append([]byte(nil), data...)
+			if bc.Cols[c] != nil && !bytes.Equal(bc.Cols[c], data) {
+				return nil, fmt.Errorf("block %d (ts %d) column %s: read twice, different bytes returned", i, bc.TS, types.ColumnFileNames[c])
+			}
+			bc.Cols[c] = append([]byte{}, data...)
 			bc.Enc[c] = d.BlockMetadata[c].BlockList[i].EncoderType.String()
 		}
 	}
